@@ -683,13 +683,23 @@ class _Gen:
         if sc.root().kind == "func":
             return self.a_const(sc)
         c = r.random()
-        if c < 0.3:  # plain, maybe also a graph input
+        if c < 0.28:  # plain, maybe also a graph input
             kind = r.choice(["F23", "F3", "F3", "I3", "F0", "F33", "B0", "I0"])
             v = self.new_init(sc, kind)
             if sc.kind == "main" and r.random() < 0.6:
                 sc.inputs.insert(r.randint(0, len(sc.inputs)), (v, kind))
                 self.feat.add("init_is_input")
             self.consume(sc, v, kind)
+        elif c < 0.36:  # same bytes, different shape: must NOT be merged
+            k1, k2 = r.choice([("F0", "F1"), ("F6", "F23"), ("I0", "I1"), ("F1", "F0"), ("F23", "F6")])
+            content = self.content(k1)
+            v1 = self.new_init(sc, k1, content)
+            v2 = self.new_init(sc, k2, np.asarray(content).reshape(KINDS[k2][1]))
+            self.feat.add("init_same_bytes_other_shape")
+            self.consume(sc, v1, k1)
+            self.consume(sc, v2, k2)
+            if sc.kind == "main" and r.random() < 0.5:
+                self.prefer_out += [self.emit(sc, "Identity", [v1], [k1])[0], self.emit(sc, "Identity", [v2], [k2])[0]]
         elif c < 0.68:  # duplicates (same dtype/shape/content, storage may differ)
             kind = r.choice(["F3", "F23", "I3", "F0", "F33", "S2", "FL", "B0"])
             content = self.content(kind)
@@ -2177,7 +2187,7 @@ def run(ctx: Ctx) -> None:
         correspond(part, {"corpus": True}, lambda b=proto.SerializeToString(): ir.serde.deserialize_model(_parse(b)),
                    list(case["seq"]))
     ctx.merge(part)
-    n = ctx.pick(640, 8000)
+    n = ctx.pick(480, 8000)
     per = [n // N_CHUNKS + (1 if i < n % N_CHUNKS else 0) for i in range(N_CHUNKS)]
     chunks = [(ctx.seed, i, per[i]) for i in range(N_CHUNKS)]
     for p in pmap(_work, chunks):
